@@ -169,7 +169,7 @@ func child() {
 			e.users++
 			user := fmt.Sprintf("m%d@example.com", e.users%40)
 			c := w.Login(user)
-			c.Wait = 6 * time.Second
+			c.Wait = 4 * time.Second
 			msg := hx.UnH(f[2])
 			n := 0
 			if msg != "" {
@@ -203,7 +203,13 @@ func child() {
 				case c.Dead:
 					st = "closed"
 				case strings.Contains(r.Err, "timeout"):
+					// no tagged answer (a line without a command is answered "* BAD"): does the session go on?
 					st = "silent"
+					c.Wait = 2 * time.Second
+					if c.Cmd("NOOP").OK() {
+						st = "untagged"
+					}
+					c.Wait = 4 * time.Second
 				case strings.HasPrefix(r.Tagged, "+"):
 					st = "cont"
 				}
@@ -211,7 +217,7 @@ func child() {
 				if c.Dead {
 					break
 				}
-				if st == "silent" || st == "cont" {
+				if st == "silent" || st == "cont" || st == "untagged" {
 					// a command left waiting for more input: give the session up
 					break
 				}
@@ -543,6 +549,9 @@ func modelTie(k kase, res []string, rep *hx.Report) (ops []string, chk []func(st
 	off := 0
 	if k.msg != "" {
 		off = 1
+		if len(res) == 0 || res[0] != "append:ok" {
+			return // $N is then some earlier message
+		}
 	}
 	for i, c := range k.cmds {
 		if off+i >= len(res) {
@@ -555,7 +564,10 @@ func modelTie(k kase, res []string, rep *hx.Report) (ops []string, chk []func(st
 		raw := hx.UnH(parts[1])
 		cmd := c
 		var s, l int64
-		if n, _ := fmt.Sscanf(cmd, "FETCH $N BODY[1]<%d.%d>", &s, &l); n == 2 && strings.HasSuffix(cmd, ">") && singlePartBody(k.msg) != "" {
+		// the value tie needs to know what BODY[1] is: only for well-formed plain messages (what the store makes of blank or
+		// header-less messages is C02's business)
+		wellFormed := (k.class == "partial-range" || k.class == "plain" || k.class == "corpus") && strings.HasPrefix(k.msg, "From: ")
+		if n, _ := fmt.Sscanf(cmd, "FETCH $N BODY[1]<%d.%d>", &s, &l); n == 2 && strings.HasSuffix(cmd, ">") && wellFormed && singlePartBody(k.msg) != "" {
 			body := singlePartBody(k.msg)
 			ops = append(ops, fmt.Sprintf("x.partial %s %d %d", hx.H(body), s, l))
 			kk := k
